@@ -32,6 +32,9 @@ pub enum COp {
     MoveVia(u8, u64),
     /// same-price amendment through another update kind: 1 = UpdatePriceAndQuantity, 2 = Replace (level price)
     AmendVia(u8, u64, u64),
+    /// a reader that takes a snapshot while the writers run (fine-grained), rebuilds a level from it, empties
+    /// that level with a draining match (both call-atomic) and reads its aggregates
+    Restore,
 }
 
 impl COp {
@@ -323,6 +326,21 @@ pub fn run_op_on(level: &PriceLevel, generator: &UuidGenerator, book: &[Ord_], t
         COp::Read => {
             let s = sh.level.snapshot();
             OpResult::Read(s.visible_quantity, s.hidden_quantity, s.order_count)
+        }
+        COp::Restore => {
+            let s = sh.level.snapshot();
+            let was_coarse = sched::is_coarse(tid);
+            sched::set_coarse(tid, true);
+            let out = match PriceLevel::from_snapshot(s) {
+                Ok(l) => {
+                    let g = UuidGenerator::new(NS);
+                    let _ = l.match_order(DRAIN_QTY, oid(950 + tid as u64), &g);
+                    OpResult::Read(l.visible_quantity(), l.hidden_quantity(), l.order_count())
+                }
+                Err(e) => OpResult::Panicked(format!("a snapshot taken from the live level was refused: {e}")),
+            };
+            sched::set_coarse(tid, was_coarse);
+            out
         }
     }
 }
@@ -958,7 +976,8 @@ pub fn evaluate(prog: &Program, ex: &Exec, want_c14: bool) -> Vec<Finding> {
             if let OpResult::Read(v, h, c) = r {
                 if *v as u128 > bt || *h as u128 > bt || *c > bc {
                     add("C12", "reader", false, format!(
-                        "a reader in thread {tid} saw visible={v} hidden={h} count={c}, more than was ever supplied ({bt}, {bc} orders)"));
+                        "a reader in thread {tid} saw visible={v} hidden={h} count={c}, more than was ever supplied ({bt}, {bc} orders){}",
+                        if prog.threads[tid].contains(&COp::Restore) { " - on the level it rebuilt from its snapshot, after emptying it with a match" } else { "" }));
                 }
             }
         }
@@ -1097,7 +1116,10 @@ pub fn evaluate(prog: &Program, ex: &Exec, want_c14: bool) -> Vec<Finding> {
 pub fn same_log(a: &Exec, b: &Exec) -> bool {
     a.log.len() == b.log.len()
         && a.log.iter().zip(b.log.iter()).all(|(x, y)| {
-            if a.objs.stats.contains(&x.ev.obj) {
+            // statistics carry wall-clock times; so do the statistics of levels created by the program itself
+            // (a reader that rebuilds a level): only the main level's own objects are compared by value
+            let core = [a.objs.vis, a.objs.hid, a.objs.count, a.objs.map, a.objs.queue, a.objs.counter];
+            if !core.contains(&x.ev.obj) {
                 (x.step, x.tid, x.opi, x.ev.obj, x.ev.kind) == (y.step, y.tid, y.opi, y.ev.obj, y.ev.kind)
             } else {
                 x == y
